@@ -103,7 +103,7 @@ class DBusClientConnection (txdbus.protocol.BasicDBusProtocol):
             self.factory._failed(reason)
             return
 
-        for cb in self._dcCallbacks:
+        for cb in list(self._dcCallbacks):
             cb(self, reason)
 
         for d, timeout in self._pendingCalls.values():
